@@ -48,8 +48,6 @@ def in_domain(S):
     for s in S["servers"]:
         if s["k"] not in ("int", "inf") or (s["k"] == "int" and s["c"] < 1):
             return False
-    if S.get("disc") and any(d == "SIRO" for d in S["disc"]):
-        return False
     for rt in S["routing"].values():
         if rt["k"] == "fpb":
             return False
@@ -153,7 +151,10 @@ class RefSim:
             return None
         best = min(c.prio for c in waiting)
         cands = [c for c in waiting if c.prio == best]
-        return cands[0] if self.disc(j) == "FIFO" else cands[-1]
+        d = self.disc(j)
+        if d == "SIRO":       # service in random order: the engine's uniform draw picks the index
+            return cands[int(self.draw("SIRO")() * len(cands))]
+        return cands[0] if d == "FIFO" else cands[-1]
 
     def start(self, j, c):
         c.in_service = True
@@ -179,9 +180,11 @@ class RefSim:
         self.nodes[j].append(c)
         if isinf(self.c(j)):
             self.start(j, c)
-        elif self.busy[j] < self.c(j):
+        else:
+            # the node looks for the next customer to serve at every acceptance (under SIRO this consumes a draw
+            # even when all servers turn out to be busy)
             x = self.choose(j)
-            if x is not None:
+            if x is not None and self.busy[j] < self.c(j):
                 self.start(j, x)
 
     def to_exit(self, c):
